@@ -49,6 +49,13 @@ impl<'a, 'b> InterpStack<'a, 'b> {
                             }
                         }
 
+                        // While the compiler is folding constants an unbound identifier is
+                        // not a value the expression can absorb (match, ||, containers): the
+                        // expression simply is not constant.
+                        if self.ctx.bindings.map_or(false, |b| b.is_compile_time()) {
+                            return Err(CelError::binding(&name));
+                        }
+
                         Ok(CelValue::from_err(CelError::binding(&name)).into())
                     } else {
                         Ok(val.into())
@@ -459,9 +466,19 @@ impl<'a> Interpreter<'a> {
                                         let arg_values = self.resolve_args(args)?;
                                         stack.push_val(construct_type(type_name, arg_values));
                                     } else {
-                                        stack.push_val(CelValue::from_err(CelError::runtime(
-                                            &format!("{} is not callable", func_name),
-                                        )));
+                                        let err = CelError::runtime(&format!(
+                                            "{} is not callable",
+                                            func_name
+                                        ));
+
+                                        // has() and coalesce() are not offered while folding
+                                        // constants; like an unbound identifier this is not an
+                                        // error value the surrounding expression may absorb.
+                                        if self.bindings.map_or(false, |b| b.is_compile_time()) {
+                                            return Err(err);
+                                        }
+
+                                        stack.push_val(CelValue::from_err(err));
                                     }
                                 }
                                 CelValue::Type(type_name) => {
